@@ -261,8 +261,8 @@ def _locate_droplets_in_mask_cylindrical_single(
     for index, slices in enumerate(object_slices, 1):
         if slices[0].start == 0:  # contains point on symmetry axis
             indices.append(index)
-            if slices[1].start == 0 and slices[1].stop > grid.shape[1]:
-                # the "droplet" extends the entire z-axis
+            if slices[1].start == 0 and slices[1].stop == mask.shape[1] > grid.shape[1]:
+                # the "droplet" extends the entire z-axis of the padded image
                 raise _SpanningDropletSignal
         else:
             _logger.warning("Found object not located on symmetry axis")
